@@ -1,7 +1,7 @@
 (* C02 — an honest swarm always leads to a complete, identical download.
    Liveness over the schedules of an async runtime.  What is machine-checked here are the ingredients; the fairness
    argument that turns them into termination, and its validity for tokio's scheduler, is NOT machine-checked. *)
-From Rdest Require Import Base BCodec Consts Wire Manager MgrProofs Handler HandlerProofs Metainfo Extract ExtractProofs Tracker TrackerProofs Stats Corr.Stats StatsProofs.
+From Rdest Require Import Base BCodec Consts Wire Manager MgrProofs Handler HandlerProofs Metainfo Extract ExtractProofs Tracker TrackerProofs Stats Corr.Stats StatsProofs TraceProofs PieceProofs.
 Open Scope N_scope.
 
 (* variant: the number of pieces still to obtain never increases *)
@@ -28,6 +28,21 @@ Proof. exact no_deadlock. Qed.
 Theorem C02_extraction_identical : forall ovf m content store, Geometry m content -> StoreOk m content store ->
   extract Extractor_tail_from_start store ovf m = Ok (spec_files m content).
 Proof. exact extract_ok. Qed.
+
+(* PROGRESS OF ONE ASSIGNMENT under an honest peer, for every piece length: after the manager assigned piece i (whose
+   content hashes to the torrent's hash for i) the task has asked for the first blocks; if the peer answers the
+   outstanding requests in order with the right bytes, every answer but the last is handled without ending the task, and
+   the last one writes exactly the content under the piece's hash and reports PieceDone (induction over the tiling;
+   the buffer after b bytes is content[0..b) followed by zeros) *)
+Theorem C02_assigned_piece_completes : forall sha1 cf disk ovf i content,
+  bytes_eqb (sha1 content) (hash_of cf i) = true ->
+  forall int s r a reply, 0 < len content -> new_piece_request cf int i (len content) = (r, a) ->
+  h_hs_done s = true -> h_rx s = Some r ->
+  exists s1 pre bl_last, left_blocks (len content) = pre ++ [bl_last] /\
+    run sha1 cf disk ovf s (early i content pre) = Some s1 /\
+    hstep sha1 cf disk ovf s1 (EFrame (honest_answer i content bl_last)) reply =
+      after_piece_finish cf (set_rx (set_ka s1 0) None) [AWrite (hash_of cf i) content; ACmd KPieceDone] reply.
+Proof. intros sha1 cf disk ovf i content Hh. exact (assigned_piece_completes sha1 cf disk ovf i content Hh). Qed.
 
 (* no waiting for an Unchoke that will not come: a peer that does not choke us, holds no assignment, and announces a
    piece we miss is asked for it in the same exchange *)
@@ -64,3 +79,4 @@ Print Assumptions C02_stats_exact.
 Print Assumptions C02_stats_pinned_refuted.
 Print Assumptions C02_stats_model_repaired.
 Print Assumptions C02_idle_announcer_asked.
+Print Assumptions C02_assigned_piece_completes.
